@@ -54,7 +54,7 @@ def answerMv (n k : Nat) (mean cov source : List Fp) (names : List String) : Str
   let covariance : Matrix Fp := ⟨cov, n, n⟩
   let sameNames := names.getD 0 "" == names.getD 1 ""
   let shape := s!"{names.getD 0 ""}:{k},{names.getD 1 ""}:{n}"
-  let (r, rest) := drawTensorSamples mean covariance source k sameNames
+  let (r, rest) := mvDrawTensor mean covariance source k (names.getD 0 "") (names.getD 1 "")
   let used := source.length - rest.length
   let model := match r with
     | .panic kind => s!"panic({kind})"
